@@ -87,7 +87,7 @@ SAFE_PATTERNS = [
     # their own; iterator adaptors over finite iterators terminate)
     re.compile(r"core::slice::<impl \[T\]>::(fill|first|last|first_mut|last_mut|get|get_mut|is_empty|contains|starts_with|ends_with|split_first|split_last|reverse|iter|iter_mut)"),
     re.compile(r"core::option::Option::<T>::(ok_or|ok_or_else|map|map_or|map_or_else|and_then|or|or_else|unwrap_or|unwrap_or_else|unwrap_or_default|filter|copied|cloned|as_ref|as_mut|take|is_some_and|is_none_or|xor|zip|iter)"),
-    re.compile(r"core::result::Result::<T, E>::(map|map_err|and_then|or_else|unwrap_or|unwrap_or_else|unwrap_or_default|ok|err|as_ref|as_mut|is_ok_and|is_err_and|iter)"),
+    re.compile(r"core::result::Result::<T, E>::(map|map_or|map_or_else|map_err|and_then|or_else|unwrap_or|unwrap_or_else|unwrap_or_default|ok|err|as_ref|as_mut|is_ok_and|is_err_and|iter)"),
     re.compile(r"core::ops::(Range|RangeInclusive|RangeFrom|RangeTo|RangeToInclusive)::<Idx>::(contains|is_empty|start|end)"),
     re.compile(r"core::str::(error::)?Utf8Error::(valid_up_to|error_len)"),    # field accessors
     re.compile(r"core::cmp::(min|max|Ord::min|Ord::max|PartialOrd::(lt|le|gt|ge)|PartialEq::(eq|ne))"),
